@@ -15,8 +15,11 @@ import sys
 import time
 import traceback
 
-from . import canon as C
-from . import ops as O
+from . import lockseam
+lockseam.install()   # before py_ecc is imported anywhere in this process
+
+from . import canon as C  # noqa: E402
+from . import ops as O  # noqa: E402
 
 SUBPACKAGES = ["bls", "bls12_381", "bn128", "optimized_bls12_381", "optimized_bn128",
                "secp256k1"]
@@ -268,7 +271,7 @@ class Server:
                 else:
                     regc.pop(out, None)
 
-    def model_pass(self, spec):
+    def model_pass(self, spec, counts=None):
         """annotate spec with golden expectations; resolve fractional schedule
         coordinates into event ordinals.  Returns the annotated copy."""
         spec = copy.deepcopy(spec)
@@ -293,6 +296,8 @@ class Server:
                 continue
             if "event" not in s:
                 n = op["gold"]["count"]
+                if counts is not None:
+                    n = counts.get("%d:%d" % (s["task"], s["op"]), n)
                 if n <= 0:
                     continue
                 s = dict(s)
@@ -307,6 +312,8 @@ class Server:
             f = dict(f)
             if f["kind"] == "async_exc" and "event" not in f:
                 n = op["gold"]["count"]
+                if counts is not None:
+                    n = counts.get("%d:%d" % (f["task"], f["op"]), n)
                 if n <= 0:
                     continue
                 f["event"] = 1 + int(f.pop("frac") * n) if n > 1 else 1
